@@ -1,9 +1,17 @@
 //! mp4mc — bounded exhaustive exploration of alfg/mp4-rust (see /verif/DESIGN.md).
 
 mod common;
-mod props;
-mod mux;
+mod e3;
+mod env;
 mod hist;
+mod mux;
+mod probe;
+mod props;
+mod refmp4;
+mod worker;
+
+#[global_allocator]
+static GLOBAL: env::alloc::Counting = env::alloc::Counting;
 
 use common::*;
 
@@ -35,10 +43,28 @@ fn main() {
         }
         i += 1;
     }
+    if args[1] == "worker" {
+        // mp4mc worker e3 <prop> --tier t --seed s --shard .. --of .. --resume-unit .. --resume-sub .. --marker ..
+        let wa = worker::parse_worker_args(&args[4..]);
+        let mut wseed = seed;
+        for i in 4..args.len().saturating_sub(1) {
+            if args[i] == "--seed" {
+                wseed = args[i + 1].parse().unwrap_or(0);
+            }
+        }
+        let code = match args[2].as_str() {
+            "e3" => worker::worker_main(&e3::E3Job::new(&args[3], tier, wseed), &wa),
+            _ => 2,
+        };
+        std::process::exit(code);
+    }
     let code = match args[1].as_str() {
         "check" => match args[2].as_str() {
             "C16" => props::c16::run(tier, seed),
             "C01" => props::c01::run(tier, seed),
+            "C06" => e3::run_check("C06", tier, seed, &["release", "wrapping"]),
+            "C07" => e3::run_check("C07", tier, seed, &["release"]),
+            "C08" => e3::run_check("C08", tier, seed, &["release"]),
             _ => {
                 eprintln!("unknown property {}", args[2]);
                 2
